@@ -15,7 +15,7 @@ EXPLANATION = (
   "(DSP-line) SccLine.process has a branch for every code class SccWord._find_code can return; (DSP-control) every SccControlCode "
   "member has a branch in process_control_code or a tabled reason; (ORD-channel) every call that feeds the decoder state "
   "(context.process_* / backspace) is dominated by a channel-1 test that skips other channels; (DUP) a control word equal to the "
-  "immediately preceding control word is skipped once and the memory of it cleared, so doubled codes act once; (FRAME) the line's "
+  "immediately preceding control word is skipped once and the memory of it cleared, so doubled codes act once, and the skip branch writes no other decoder state, calls nothing on the context and does not advance the time code; (FRAME) the line's "
   "time code advances exactly one frame per processed word, after the duplicate test; (ORD-ext) an extended character first "
   "backspaces, then writes; (STYLE) colour, italics and underline from PAC / mid-row codes are applied to the text that follows in "
   "all three caption styles; (EXA) begin / end reach the model as exact frame multiples via to_temporal_offset at 30 fps or, for "
@@ -169,6 +169,19 @@ def check_channel_and_frames(ctx):
     first = lp
   ctx.check(ok, "DUP", f"{f.qualname}|doubled control codes act once", ctx.where(f.module, first), "same value as the previous *code* word: forget it and skip",
             "the duplicate-suppression step changed: it must skip a word only if the previous word is a control code with the same value, and then forget the previous word")
+  # the skipped copy has no effect: the skip branch forgets the previous word and does nothing else to the decoder state
+  if isinstance(first, ast.If):
+    extra = []
+    for st in first.body:
+      for n in ast.walk(st):
+        if isinstance(n, ast.Attribute) and isinstance(n.ctx, ast.Store) and unparse(n.value) == CX and n.attr != "previous_word":
+          extra.append(f"{CX}.{n.attr} is rewritten")
+        if isinstance(n, ast.Call) and isinstance(n.func, ast.Attribute) and unparse(n.func.value) == CX:
+          extra.append(f"{short(n, 50)} is called")
+        if isinstance(n, ast.Call) and isinstance(n.func, ast.Attribute) and n.func.attr == "add_frames":
+          extra.append("the time code advances")
+    ctx.check(not extra, "DUP", f"{f.qualname}|the skipped copy of a doubled code has no effect", ctx.where(f.module, first), "the skip branch only forgets the previous word",
+              "when the second copy of a doubled control code is skipped, " + "; ".join(extra[:3]) + ": the skipped word must leave the decoder state as it is (doubled codes act once)")
   remembered = any(isinstance(x, ast.Assign) and unparse(x) == f"{CX}.previous_word = {W}" and parent(x) is lp for x in body)
   ctx.check(remembered, "DUP", f"{f.qualname}|every processed channel-1 word is remembered", ctx.where(f.module, lp), "context.previous_word = scc_word at the end of the loop body",
             "processed words are no longer remembered for duplicate suppression")
